@@ -5,10 +5,10 @@ context stack; commands = its public methods) and of the part of explorerscript/
 `ExplorerScriptMacro.build` / `_build_op` that talks to the builder and to the op counter.
 
 Python lists used as stacks (`append` / `pop` / `[-1]`) are modelled with the top at the head.
-Aliasing is not modelled: `SourceMapBuilder.build()` hands out the builder's own lists, so a macro's
-`source_map` and the builder it is expanded into can share one list object (pinned-tree defect
-`macro_posmark_nested_hang`: `build` then iterates the list it appends to and never returns).  Such a run
-produces no result and is never replayed; in the model the lists are values.
+Lists are values: since /repo commit 1dfd06a `SourceMapBuilder.build()` hands out copies (on the pinned tree a
+macro's `source_map` and the builder it was expanded into could share one list object and `build` never returned:
+`macro_posmark_nested_hang`).  Since /repo commit a2649b8 every macro has a builder of its own; nothing in the model
+depends on how many builder objects exist (each one's recorded call sequence is replayed separately).
 -/
 namespace ESV.SmBuilder
 open ESV ESV.SM
@@ -157,12 +157,23 @@ def build (m : MacroIn) (c : Nat) (bp : List Bp) : Except Err (List Cmd × Nat) 
   | .ok (cs, c') =>
     .ok ([.push (Int.ofNat (c + (nReal bp + 1))) m.params] ++ cs
           ++ m.posDirect.map (fun p => Cmd.addMacroPosMark m.relpath m.name p)
-          ++ m.posMacros.map (fun y => Cmd.addMacroPosMark y.1 y.2.1 y.2.2)
+          -- (a null file in a relayed entry means OUR file, as for the opcode entries: /repo commit d39fded)
+          ++ m.posMacros.map (fun y => Cmd.addMacroPosMark (match y.1 with | none => m.relpath | some f => some f) y.2.1 y.2.2)
           ++ [.pop], c')
 
 /-- blueprint of the ops `build` returns (what an enclosing macro stores): start label carrying
 `len_real_ops_in_blueprints`, the copied items, end label -/
 def buildOut (pm : ParamMap) (bp : List Bp) : List Bp := .mstart (nReal bp + 1) pm :: bp ++ [.mend]
+
+/-- copy of a blueprint item into the returned list: a nested start label carries the parameter mapping with the
+parameters of THIS expansion substituted (what was pushed for it; /repo commit 4303b4a), everything else keeps its kind -/
+def copyItem (ours : ParamMap) : Bp → Bp
+  | .mstart len pm => .mstart len (replaceParams pm ours)
+  | x => x
+
+/-- the list `build` returns, as blueprint kinds (the op items stand for the new ops; their source-map data now lives
+in the builder the macro was expanded into) -/
+def buildItems (m : MacroIn) (bp : List Bp) : List Bp := buildOut m.params (bp.map (copyItem m.params))
 
 /-! ### the counting machine behind the return addresses
 Only counter, stack of return addresses and the offsets handed out matter. -/
